@@ -169,6 +169,9 @@ impl Report {
             for (k, x) in m {
                 // numeric extras add up, others: first wins
                 match (self.extra.get(k).and_then(|o| o.as_u64()), x.as_u64()) {
+                    (Some(a), Some(b)) if k.starts_with("max_") => {
+                        self.extra.insert(k.clone(), json!(a.max(b)));
+                    }
                     (Some(a), Some(b)) => {
                         self.extra.insert(k.clone(), json!(a + b));
                     }
